@@ -3,7 +3,7 @@
 (* added by the C04 / C05 operators of module Curve).                         *)
 EXTENDS Curve, JudgeBase
 
-VARIABLES i, rv, rc, d, skip
+VARIABLES i, rv, rc, d, skip, tolv
 
 QV(v) == [k \in 1..Len(v) |-> VScale(QP, v[k])]
 
@@ -45,7 +45,21 @@ PieceOK(tag, nd, o) ==
     /\ ClauseB("C04." \o tag \o ".length", PieceLength(nd, o))
     /\ ClauseB("C04." \o tag \o ".path", PiecePath(rv, rc, nd, o))
     /\ ClauseB("C04." \o tag \o ".closed_flag", o.closed = DClosed(rv, rc, nd))
-ResultOK(tag, nd, o) == IF nd = NoCurve THEN ClauseB("C04." \o tag \o ".must_be_none", ~o.some) ELSE PieceOK(tag, nd, o)
+\* with a tolerance of tolv lattice units (tolerance variant): a request shorter than the tolerance yields nothing,
+\* exactly the tolerance is free, clearly longer yields a piece whose ends are within the tolerance of the exact
+\* ones and whose length is within (vertex count) tolerances of the exact travel (vertices closer than the
+\* tolerance to their predecessor may legitimately merge, so the path itself is not compared)
+TolResultOK(tag, nd, o) ==
+    LET t2 == 2 * tolv IN
+    IF nd = NoCurve \/ nd.T < t2 THEN ClauseB("C04.tol." \o tag \o ".must_be_none", ~o.some)
+    ELSE IF nd.T <= 2 * t2 THEN TRUE      \* between one and two tolerances (incl. vertices exactly one tolerance from both ends): free
+    ELSE /\ ClauseB("C04.tol." \o tag \o ".some", o.some)
+         /\ ClauseB("C04.tol." \o tag \o ".endpoints", /\ Len(o.verts) >= 2
+                 /\ PNear(o.verts[1], ExpQ(DPoint(rv, rc, nd, 0)), tolv * QC + 3)
+                 /\ PNear(o.verts[Len(o.verts)], ExpQ(DPoint(rv, rc, nd, nd.T)), tolv * QC + 3))
+         /\ ClauseB("C04.tol." \o tag \o ".length", AbsC(2 * o.len - nd.T * QC) <= 2 * (Len(o.verts) + 1) * tolv * QC + 8)
+ResultOK(tag, nd, o) == IF tolv > 0 THEN TolResultOK(tag, nd, o)
+                        ELSE IF nd = NoCurve THEN ClauseB("C04." \o tag \o ".must_be_none", ~o.some) ELSE PieceOK(tag, nd, o)
 
 \* expected next abstract curve for a (non-root) history record
 NextD(r) ==
@@ -70,6 +84,8 @@ JHist(r) ==
          [] r.op = "bycontrol" ->
               LET v == DByControl(rv, rc, d, Dec(r.a), Dec(r.b), Dec(r.c)).verdict IN
               IF v = "free" THEN TRUE ELSE ResultOK(r.op, nd, o)
+         [] r.op = "split_open" /\ tolv > 0 -> TRUE
+         [] r.op = "split_closed" /\ tolv > 0 -> TRUE
          [] r.op = "split_open" ->
               LET pa == DBetween(rv, rc, d, 0, Dec(r.l)) pb == DBetween(rv, rc, d, Dec(r.l), d.T) IN
               IF nd = NoCurve THEN ClauseB("C04.split_open.must_fail", ~o.some)
@@ -165,22 +181,22 @@ Judge(r) ==
 
 Stateless(r) == r.op \in {"stations", "resample", "simplify", "fill_gaps"}
 
-Init == i = 1 /\ rv = <<>> /\ rc = FALSE /\ d = NoCurve /\ skip = FALSE
+Init == i = 1 /\ rv = <<>> /\ rc = FALSE /\ d = NoCurve /\ skip = FALSE /\ tolv = 0
 Next ==
     /\ i <= Len(Rec)
     /\ i' = i + 1
     /\ LET r == Rec[i] IN
-       IF r.op = "reset" THEN rv' = <<>> /\ rc' = FALSE /\ d' = NoCurve /\ skip' = FALSE
-       ELSE IF Stateless(r) THEN Judge(r) /\ UNCHANGED <<rv, rc, d, skip>>
-       ELSE IF skip THEN UNCHANGED <<rv, rc, d, skip>>
-       ELSE IF ~Ran(r) THEN Sane(i, r) /\ skip' = TRUE /\ UNCHANGED <<rv, rc, d>>
+       IF r.op = "reset" THEN rv' = <<>> /\ rc' = FALSE /\ d' = NoCurve /\ skip' = FALSE /\ tolv' = 0
+       ELSE IF Stateless(r) THEN Judge(r) /\ UNCHANGED <<rv, rc, d, skip, tolv>>
+       ELSE IF skip THEN UNCHANGED <<rv, rc, d, skip, tolv>>
+       ELSE IF ~Ran(r) THEN Sane(i, r) /\ skip' = TRUE /\ UNCHANGED <<rv, rc, d, tolv>>
        ELSE IF r.op = "root" THEN
             LET ok == JRoot(r) v == Built(r.pts, r.tolU, r.fc, 2) IN
-            /\ skip' = ~ok /\ rv' = v /\ rc' = IsClosedV(v, r.tolU, 2) /\ d' = WholeRoot(v)
+            /\ skip' = ~ok /\ rv' = v /\ rc' = IsClosedV(v, r.tolU, 2) /\ d' = WholeRoot(v) /\ tolv' = r.tolU
        ELSE IF r.op \in HistOps THEN
             LET ok == JHist(r) nd == NextD(r) IN
-            /\ skip' = ~ok /\ d' = (IF nd = NoCurve THEN d ELSE nd) /\ UNCHANGED <<rv, rc>>
-       ELSE Clause(i, "unknown-op", FALSE) /\ UNCHANGED <<rv, rc, d, skip>>
-Spec == Init /\ [][Next]_<<i, rv, rc, d, skip>>
+            /\ skip' = ~ok /\ d' = (IF nd = NoCurve THEN d ELSE nd) /\ UNCHANGED <<rv, rc, tolv>>
+       ELSE Clause(i, "unknown-op", FALSE) /\ UNCHANGED <<rv, rc, d, skip, tolv>>
+Spec == Init /\ [][Next]_<<i, rv, rc, d, skip, tolv>>
 Post == TLCGet("stats").diameter - 1 = Len(Rec)
 =============================================================================
